@@ -343,6 +343,79 @@ theorem C04_dispatch_value (thr : K) (l r : Tag) (f : Form) (e : Entry)
     simp [dispatch, binop, matmul, rmatmul, imatmul, Tag.isAng, Tag.isMat] at he <;>
     subst he <;> simp_all [evalFormula, convOf, Tag.isAng, Tag.isMat]
 
+/-- **Value semantics.** In a history over a pool of live objects, the object produced by a step
+is a function of the two operands' classes and *current values* only — whatever happened to
+those objects before (earlier rotations by or of them, other pool members) cannot matter.
+(For the code this is what the history correspondence establishes: a hidden cache on an object
+would make the implementation depend on more than the value.) -/
+theorem C04_value_semantics (thr : K) (fresh : Bool) (rad : Radii K) (P Q : List (Obj K)) (st : Step)
+    (hl : P[st.l]? = Q[st.l]?) (hr : P[st.r]? = Q[st.r]?) :
+    (stepPool thr fresh rad P st).map (·.2) = (stepPool thr fresh rad Q st).map (·.2) := by
+  unfold stepPool
+  rw [hl, hr]
+  cases Q[st.l]? <;> cases Q[st.r]? <;> try rfl
+  rename_i lo ro
+  cases hs : stepResult thr fresh rad lo ro st.form <;> simp [hs]
+
+/-- **Frame.** A step changes at most the left operand's slot, and only when the operation is an
+in-place one; every other live object keeps its value. -/
+theorem C04_step_frame (thr : K) (fresh : Bool) (rad : Radii K) (P P' : List (Obj K)) (st : Step)
+    (res : Obj K) (h : stepPool thr fresh rad P st = some (P', res)) :
+    (∀ k, k ≠ st.l → P'[k]? = P[k]?) ∧
+    (∀ lo ro e, P[st.l]? = some lo → P[st.r]? = some ro →
+      dispatch fresh lo.tag ro.tag st.form = some e → e.inPlace = false → P' = P) := by
+  unfold stepPool at h
+  cases hlo : P[st.l]? with
+  | none => simp [hlo] at h
+  | some lo =>
+    cases hro : P[st.r]? with
+    | none => simp [hlo, hro] at h
+    | some ro =>
+      simp only [hlo, hro] at h
+      cases hs : stepResult thr fresh rad lo ro st.form with
+      | none => simp [hs] at h
+      | some er =>
+        obtain ⟨e, r⟩ := er
+        simp only [hs, Option.some.injEq, Prod.mk.injEq] at h
+        obtain ⟨h1, h2⟩ := h
+        refine ⟨?_, ?_⟩
+        · intro k hk
+          rw [← h1]
+          split_ifs
+          · rw [List.getElem?_set_ne (Ne.symm hk)]
+          · rfl
+        · intro lo' ro' e' e1 e2 hd hip
+          simp only [Option.some.injEq] at e1 e2
+          subst e1 e2
+          unfold stepResult at hs
+          rw [hd] at hs
+          cases hv : evalFormula thr e'.f lo.val ro.val rad with
+          | none => simp [hv] at hs
+          | some v =>
+            simp only [hv, Option.some.injEq, Prod.mk.injEq] at hs
+            rw [← h1, ← hs.1, hip]
+            simp
+
+/-- With the source's flag: a step whose left operand is of an immutable class (FrozenVec, tuple,
+FrozenAngle, FrozenMatrix) leaves the whole pool as it was. -/
+theorem C04_step_frozen (thr : K) (rad : Radii K) (P P' : List (Obj K)) (st : Step) (res lo : Obj K)
+    (h : stepPool thr true rad P st = some (P', res)) (hlo : P[st.l]? = some lo)
+    (hm : lo.tag.mutable = false) : P' = P := by
+  cases hro : P[st.r]? with
+  | none => simp [stepPool, hlo, hro] at h
+  | some ro =>
+    cases hd : dispatch true lo.tag ro.tag st.form with
+    | none => simp [stepPool, stepResult, hlo, hro, hd] at h
+    | some e =>
+      refine (C04_step_frame thr true rad P P' st res h).2 lo ro e hlo hro hd ?_
+      have : ∀ (l r : Tag) (f : Form) (e : Entry), l.mutable = false → dispatch true l r f = some e →
+          e.inPlace = false := by
+        intro l r f e hl he
+        cases l <;> cases r <;> cases f <;> simp [Tag.mutable] at hl <;>
+          simp [dispatch, binop, matmul, rmatmul, imatmul, Tag.isAng, Tag.isMat] at he <;>
+          (try subst he) <;> simp_all
+      exact this _ _ _ _ hm hd
+
 end DispatchValue
 
 /-! ## Non-vacuity -/
